@@ -410,7 +410,7 @@ package transport
 // connection, if one is up) while holding the lock, so that no exchange can pick one up afterwards.
 //@ func (t *ReuseConnTransport) Close() (err error)
 //@   props C18
-//@   requires t != nil && rtInv(t) && forallkey(k, t.conns, k != nil && k.c != nil)
+//@   requires t != nil && rtInv(t) && t.cancelCause != nil && forallkey(k, t.conns, has(t.conns, k) ==> k != nil && k.c != nil)
 //@   ghost nAcq int = 0
 //@   ghost held bool = false
 //@   ghost nSock int = 0
